@@ -1,4 +1,5 @@
 import Holpy.C17.Proofs
+import Holpy.C17.ExplainProofs
 /-
 C17 — property theorems about the model of `prover/congc.py: CongClosure` (`Model.lean`).
 `run ops` is the structure after the operations `ops` (`add_var` / `merge(a, b)` /
@@ -16,5 +17,31 @@ theorem test_sound (ops : List Op) (a b : Cst) (h : test (run ops) a b = .ok tru
 
 /- non-vacuity: f(1,2)=3, f(4,5)=6, 1=4, 2=5 makes `test 3 6` true (by congruence). -/
 example : test (run [.mergeF 1 2 3, .mergeF 4 5 6, .mergeC 1 4, .mergeC 2 5]) 3 6 = .ok true := by rfl
+
+/-- Explanations use only merged equations: every label in the dictionary returned by
+`explain(a, b)` is a merged constant equation or a pair of merged application equations whose
+arguments are congruent (`LabelOK`), so every equation the explanation lists (`resEqs res`) was
+merged; and the listed equations alone entail every explained pair, in particular `a = b`. -/
+theorem explain_uses_inputs (ops : List Op) (a b : Cst) (res : Res)
+    (h : explainTop (run ops) a b = .ok res) :
+    (∀ ent ∈ res, ∀ l ∈ ent.2, LabelOK (eqsOf ops) l) ∧
+    (∀ q, resEqs res q → eqsOf ops q) ∧
+    (∀ ent ∈ res, Cl (resEqs res) ent.1.1 ent.1.2) ∧
+    Cl (resEqs res) a b := by
+  obtain ⟨h1, h2, h3⟩ := explainTop_ok (run_sound ops) h
+  refine ⟨h1, ?_, h2, h3⟩
+  rintro q ⟨ent, he, l, hl, hq⟩
+  have ok := h1 ent he l hl
+  cases l with
+  | const x y => simp only at hq; subst hq; exact ok
+  | comb e1 e2 =>
+    simp only at hq
+    rcases hq with hq | hq <;> subst hq
+    · exact ok.1
+    · exact ok.2.1
+
+/- non-vacuity: the explanation of 3 = 6 lists both application equations and both constant equations. -/
+example : explainTop (run [.mergeF 1 2 3, .mergeF 4 5 6, .mergeC 1 4, .mergeC 2 5]) 3 6 =
+    .ok [((1, 4), [.const 1 4]), ((2, 5), [.const 2 5]), ((3, 6), [.comb ⟨1, 2, 3⟩ ⟨4, 5, 6⟩])] := by rfl
 
 end Holpy.C17
